@@ -182,7 +182,7 @@ def set_mutations(body, field, adt="TargetActorHelper"):
     return out
 
 
-@rule("C01.PENDING-BOOKKEEPING", ["C01"], """the pending-dependency sets are only shrunk in the handler of an Ok message (by that
+@rule("C01.PENDING-BOOKKEEPING", ["C01", "C07"], """the pending-dependency sets are only shrunk in the handler of an Ok message (by that
       message's kind and target id) and every actor's Invalidated handler re-inserts the message's target id under the message's kind;
       nothing else mutates them""", "K4", floor=6)
 def pending_bookkeeping(ctx):
@@ -200,14 +200,14 @@ def pending_bookkeeping(ctx):
         inserts = [m for m in muts if m[2] == "insert"]
         others = [m for m in muts if m[2] not in ("remove", "insert")]
         for (bb, t, meth, at) in others:
-            ctx.bad(f"{lab}/{meth}", [site(a, bb)], f"unexpected mutation `{meth}` of the pending-dependency sets")
+            ctx.bad(f"{lab}/{meth}", [site(a, bb)], f"unexpected mutation `{meth}` of the pending-dependency sets", props=["C01"])
         if not [m for m in removes if m[0] in Rok]:
-            ctx.bad(f"{lab}/Ok.remove", [a.loc()], "the Ok handler does not remove the acknowledged dependency from the pending set")
+            ctx.bad(f"{lab}/Ok.remove", [a.loc()], "the Ok handler does not remove the acknowledged dependency from the pending set", props=["C01"])
         for (bb, t, meth, at) in removes:
             arg_at = a.prov.operand_atoms(t["args"][1], interproc=False)
-            good = bb in Rok and msg_field_atoms("Ok", "target_id")(arg_at) and msg_field_atoms("Ok", "kind")(at)
-            ctx.check(good, f"{lab}/Ok.remove", [site(a, bb)],
-                      "a pending dependency is removed outside the Ok handler, or not by the message's own kind and target id")
+            good = bb in Rok and msg_field_atoms("Ok", "target_id")(arg_at) and msg_field_atoms("Ok", "kind")(at) and _must_pass(a, Rok, bb)
+            ctx.check(good, f"{lab}/Ok.remove", [site(a, bb)], props=["C01"], found=
+                      "a pending dependency is removed outside the Ok handler, not by the message's own kind and target id, or not on every path of the handler")
         if not [m for m in inserts if m[0] in Rinv]:
             ctx.bad(f"{lab}/Invalidated.insert", [a.loc()], "the Invalidated handler does not put the dependency back into the pending set")
         for (bb, t, meth, at) in inserts:
@@ -224,7 +224,7 @@ def pending_bookkeeping(ctx):
         if b.name in actor_names or b.name in cons:
             continue
         for (bb, t, meth, at) in set_mutations(b, "unavailable_dependencies"):
-            ctx.bad(f"{short(b.name)}/{meth}", [site(b, bb)], "the pending-dependency sets are mutated outside an actor's Ok/Invalidated handlers")
+            ctx.bad(f"{short(b.name)}/{meth}", [site(b, bb)], "the pending-dependency sets are mutated outside an actor's Ok/Invalidated handlers", props=["C01"])
 
 
 def _must_pass(body, region, bb):
@@ -260,7 +260,17 @@ def classify_ok_site(r, body, bb, st):
         return d[0] == "call" and d[1].endswith("::is_empty") and d[2] and atom_has_field(d[2][0], "unavailable_dependencies", "TargetActorHelper")
     G3 = guard_region(body, pend_empty, True)
     if bb in G3:
-        return "I3", "under a true `unavailable_dependencies[..].is_empty()`"
+        # the emptiness test must concern the kind the acknowledgement is about: the message's own kind
+        def pend_empty_of_msg_kind(d):
+            return pend_empty(d) and any(a[0] == "field" and a[2] == "kind" and path_ends(a[1], "ActorInputMessage") for a in d[2][0])
+        if bb in guard_region(body, pend_empty_of_msg_kind, True) and "msg" in kind_of_operand(body, agg_field_op(st, "kind")):
+            # and nothing else may guard it except the bookkeeping results of this very message
+            extra = conditions_within(dominating_conditions(body, bb), [(pend_empty, True), (cond_is_remove_result("unavailable_dependencies"), True), (cond_is_insert_result("requesters"), True),
+                                                                      (lambda d: d[0] == "field" and d[1] == "actual", None)])
+            if not extra:
+                return "I3", "under a true `unavailable_dependencies[kind].is_empty()` for the message's kind"
+            return None, "the aggregate's acknowledgement depends on a further condition: " + fmt_conds(extra)
+        return None, "acknowledged under an empty pending set of a *different* kind than the one acknowledged"
     # I2: foreign-kind reply
     if body in r.actors():
         kinds = r.actor_kinds(body)
